@@ -330,6 +330,16 @@ def run_case(ctx, i, rng):
             # C01 known findings (e.g. an output message that arrived after
             # its task had left the pool): judged under C01
             ctx.count('differential_missing_explained_by_C01_known_finding')
+        elif set(jobs) != set(base_jobs) and not (
+                set(base_jobs) - set(jobs)) and known_c01(
+                    case, {j.rsplit('/', 1)[0]
+                           for j in set(jobs) - set(base_jobs)}, base):
+            # the other way round: the uninterrupted reference run lost
+            # instances to the C01 known findings (an output message that
+            # arrived after its task had left the pool), the interrupted
+            # run did not
+            ctx.count('differential_extra_explained_by_C01_known_finding_'
+                      'in_the_reference_run')
         elif set(jobs) != set(base_jobs):
             ctx.violation(
                 'C19:different-jobs-after-restart',
@@ -339,6 +349,8 @@ def run_case(ctx, i, rng):
                 dict(detail, base=sorted(base_jobs), got=sorted(jobs)))
             continue
         for jid, j in jobs.items():
+            if jid not in base_jobs:
+                continue    # (explained above)
             bj = base_jobs[jid]
             if (j['state'], sorted(j['emitted'])) != (
                     bj['state'], sorted(bj['emitted'])):
